@@ -1,6 +1,43 @@
 """Per-property manifest entries. Only properties with a working check appear in CHECKS."""
 
 CHECKS = {
+    "C08": {
+        "level": "exploration",
+        "technique": "differential across construction/rendering paths and PYTHONHASHSEED child processes",
+        "text": ("Generated programs (defs, calls with content, control structures, non-ASCII text) are rendered through Template(text), "
+                 "Template(filename=), module_directory first load, a lookup with modulename_callable and three URI spellings, "
+                 "ModuleTemplate over the imported t.code, render / render_context / a second render, get_def(name).render() vs a "
+                 "one-line calling template, and - in batches - by child processes under PYTHONHASHSEED 0/1/2/12345 that compile afresh "
+                 "and re-load the parent's module files (which must not be rewritten); CLI-safe documents are also run through "
+                 "mako.cmd.cmdline (stdout, --output-encoding, --output-file). Every path must equal the P1 output; Template.source / "
+                 ".code / list_defs / has_def must be the template's own. A fixed sub-check exercises colliding URIs (known finding)."),
+        "note": ("P7 only with string variables; P8 not for buffered/decorated/*args defs; four hash seeds sampled. Trusted: P1 as the "
+                 "reference path (its meaning is checked against independent references by C01-C07)."),
+    },
+    "C11": {
+        "level": "fault_enumeration",
+        "technique": "one planted fault per generated layout, every fault class enumerated; by-construction expected line/column on 5 construction paths",
+        "text": ("Subjects are drawn layouts (0-7 units of multi-line text, CRLF, continuations, comments, <%doc>, multi-line expressions "
+                 "and blocks, defs, control structures; optional inline text so the construct's column is >1); into each subject every "
+                 "one of 55 fault classes is planted in turn and compiled as string, string+filename, file, through a lookup and with a "
+                 "module directory. Exception class, e.lineno (the physical line of the offending Python line or of the construct), "
+                 "e.pos, e.filename, e.source, agreement across paths, RichTraceback and the text/HTML error templates are checked."),
+        "note": ("Two pinned classes (unclosed tag, unterminated filter) and a multi-line tag's attribute line are checked for type/filename/"
+                 "source only. Subjects are sampled (64 quick / 2.4k thorough), fault classes enumerated."),
+    },
+    "C12": {
+        "level": "fault_enumeration",
+        "technique": "one planted raise / warning per generated layout and stack shape; by-construction expected template frames and warning locations",
+        "text": ("For drawn prefix layouts, 7 stack shapes (single, include, nested include, inherit, namespace def, inherit->namespace->"
+                 "include) and 4 construction paths (put_string, files, module directory fresh and re-loaded), each of 9 raising "
+                 "constructs is planted in turn: the expected (template file-or-uri, line) of the innermost frame and of each outer "
+                 "template's calling construct must appear in order among RichTraceback's template frames, all template frames carry "
+                 "their own file and source, python frames equal traceback.extract_tb, and the text / HTML error templates and "
+                 "format_exceptions name the innermost frame. Each of 5 warning constructs x 5 filter actions must be recorded "
+                 "exactly once at (template, line), or raise a located SyntaxException under the error action."),
+        "note": ("Helper-stub frames (def-call wrappers) have no line fixed by the statement: expected frames are matched as an ordered "
+                 "subsequence. Subjects sampled (192 quick / 4.8k thorough)."),
+    },
     "C20": {
         "level": "exploration",
         "technique": "hypothesis-generated templates built line by line with a layout map; by-construction expected (line, function, messages, comments) compared both ways for Babel and Lingua",
